@@ -153,7 +153,19 @@ fn run_probe(p: &Probe) -> Result<(i32, Value, String), String> {
     Ok((code, json, String::from_utf8_lossy(&out.stderr).to_string()))
 }
 
+/// C16 asks: effective == written, or start refused (out-of-range must be refused).
+/// C15 asks (cheap twin of its process-level check): every documented in-range configuration is accepted.
+#[derive(Clone, Copy, PartialEq, Eq)]
+pub enum ProbeMode {
+    C16,
+    C15,
+}
+
 fn check_probe(ctx: &mut Ctx, p: &Probe) -> Res {
+    check_probe_mode(ctx, p, ProbeMode::C16)
+}
+
+fn check_probe_mode(ctx: &mut Ctx, p: &Probe, mode: ProbeMode) -> Res {
     ctx.eval();
     let want = model(p);
     let (code, got, stderr) = match run_probe(p) {
@@ -171,6 +183,20 @@ fn check_probe(ctx: &mut Ctx, p: &Probe) -> Res {
     if cls != "within-type-width" {
         ctx.nontrivial(p);
     }
+    if mode == ProbeMode::C15 {
+        if let Expect::Accept(_) = want {
+            if code != 0 {
+                // a seed that YAML types as an integer (all digits, value fits i64, i.e. >= 45 leading zeros)
+                let yaml_int = vk == "seed" && !p.via_env && vv.parse::<i64>().is_ok();
+                return ctx.fail(
+                    format!("in-range-configuration-refused|{}|{}{}", src, vk, if yaml_int { "|yaml-integer-scalar" } else { "" }),
+                    format!("{} source, settings {:?} are all documented and in range but start-up is refused (exit {}): {} {}", src, p.settings, code, got, stderr.lines().find(|l| l.contains("panicked") || l.contains("rror")).unwrap_or("")),
+                );
+            }
+            ctx.nontrivial(p);
+        }
+        return Ok(());
+    }
     match want {
         Expect::Refuse(why) => {
             if code == 0 {
@@ -182,10 +208,10 @@ fn check_probe(ctx: &mut Ctx, p: &Probe) -> Res {
         }
         Expect::Accept(eff) => {
             if code != 0 {
-                return ctx.fail(
-                    format!("refused-in-range|{}|{}", src, vk),
-                    format!("{} source, settings {:?} are all documented and in range but start-up was refused (exit {}): {} {}", src, p.settings, code, got, stderr.lines().next().unwrap_or("")),
-                );
+                // C16 allows a refusal ("effective == written, else start is refused"); that an in-range
+                // configuration must start is C15's obligation and is checked there with the same probes
+                ctx.class(&format!("c16:{}:{}:in-range-but-refused", src, vk));
+                return Ok(());
             }
             for (k, v) in &eff {
                 let g = got.get(k).cloned().unwrap_or(Value::Null);
@@ -258,6 +284,10 @@ fn c16_grid() -> Vec<Probe> {
         // seeds of wrong length / alphabet
         for s in [&GOOD_SEED[..62], &GOOD_SEED[..63], GOOD_SEED, &format!("{}a", GOOD_SEED), &format!("{}ab", GOOD_SEED), &format!("{}zz", &GOOD_SEED[..62]), &GOOD_SEED.to_uppercase()] {
             out.push(with_setting("seed", s, via_env));
+        }
+        // in-range seeds that are awkward to write in YAML
+        for sd in ["1234567890123456789012345678901234567890123456789012345678901234", "0000000000000000000000000000000000000000000000000000000000000001", "123456789012345678901e345678901234567890123456789012345678901234"] {
+            out.push(with_setting("seed", sd, via_env));
         }
         // missing required keys
         for missing in ["port", "interface", "seed"] {
@@ -602,6 +632,13 @@ fn c15_random() -> impl Strategy<Value = ConfigCase> {
 pub fn run_c15(ctx: &mut Ctx) -> Vec<Violation> {
     let t = ctx.tier;
     let mut out = vec![];
+    // cheap twin: the loader accepts every documented in-range configuration of the boundary grid
+    let grid: Vec<Probe> = c16_grid().into_iter().filter(|p| matches!(model(p), Expect::Accept(_))).collect();
+    let v = run_enum(ctx, "accepts-in-range", grid.len() as u64, |i| grid[i as usize].clone(), |ctx, p| check_probe_mode(ctx, p, ProbeMode::C15));
+    if v.is_empty() && ctx.shard == 0 {
+        ctx.stats.exhaustive_spaces.push(format!("loader acceptance of all {} in-range probes of the C16 boundary grid (file and ENV)", grid.len()));
+    }
+    out.extend(v);
     let grid = c15_pairwise();
     let v = run_enum(ctx, "pairwise", grid.len() as u64, |i| grid[i as usize].clone(), |ctx, c| check_config(ctx, c));
     if ctx.shard == 0 {
@@ -616,7 +653,10 @@ pub fn run_c15(ctx: &mut Ctx) -> Vec<Violation> {
     out
 }
 
-pub fn replay_c15(ctx: &mut Ctx, _sub: &str, case: &Value) -> Res {
+pub fn replay_c15(ctx: &mut Ctx, sub: &str, case: &Value) -> Res {
+    if sub == "accepts-in-range" {
+        return replay_case::<Probe, _>(ctx, case, |ctx, p| check_probe_mode(ctx, p, ProbeMode::C15));
+    }
     replay_case::<ConfigCase, _>(ctx, case, |ctx, c| check_config(ctx, c))
 }
 
@@ -1036,6 +1076,91 @@ pub fn replay_c19(ctx: &mut Ctx, _sub: &str, case: &Value) -> Res {
         check_signal(ctx, &p)?;
     }
     Ok(())
+}
+
+// =========================================================================================== C10 (real binary)
+
+#[derive(Debug, Clone, Serialize, Deserialize)]
+pub struct IdentityRun {
+    /// the seed as written in the configuration (64 hex characters; may be all decimal digits or upper case)
+    pub seed_text: String,
+    pub via_env: bool,
+    pub workers: u8,
+    pub restarts: u8,
+}
+
+fn check_identity_run(ctx: &mut Ctx, r: &IdentityRun) -> Res {
+    let seed = rc::unhex(&r.seed_text);
+    let pk = RefKey::from_seed(&seed).public();
+    let srv = srv_value(&pk);
+    let n = r.workers.max(1) as usize;
+    for start in 0..r.restarts.max(1) {
+        ctx.eval();
+        let cfg = SrvCfg { seed_hex: r.seed_text.clone(), workers: Some(n as u64), via_env: r.via_env, ..Default::default() };
+        let mut s = match ServerProc::start(&cfg) {
+            Ok(s) => s,
+            Err(e) => {
+                ctx.inconclusive(format!("proclab: {}", e));
+                return Ok(());
+            }
+        };
+        if let Err(e) = s.wait_ready(Duration::from_secs(10)) {
+            return ctx.fail("server-not-serving-with-valid-seed", format!("seed {:?} ({} source): {}", r.seed_text, if r.via_env { "ENV" } else { "file" }, truncate(&e, 300)));
+        }
+        std::thread::sleep(Duration::from_millis(100));
+        let out = s.output();
+        let announced: Vec<&str> = out.lines().filter_map(|l| l.split("Long-term public key       : ").nth(1)).map(|x| x.trim()).collect();
+        if announced.is_empty() {
+            return Err(viol("positive-control-failed", "no 'Long-term public key' line in the server log"));
+        }
+        if let Some(a) = announced.iter().find(|a| **a != hex(&pk)) {
+            return ctx.fail("announced-key-not-rfc8032-of-configured-seed", format!("seed written as {:?} ({} source, start {}): server announces {} but the RFC 8032 key of that seed is {}", r.seed_text, if r.via_env { "ENV" } else { "file" }, start, a, hex(&pk)));
+        }
+        // certificates of every worker, both protocols; SRV-bound IETF requests are answered
+        let mut keys = HashSet::new();
+        for k in 0..(24 * n) as u64 {
+            let sock = UdpSocket::bind("127.0.0.1:0").unwrap();
+            let proto = if k % 2 == 0 { Proto::Classic } else { Proto::Ietf };
+            let nonce = sha512(&[b"c10p", &k.to_le_bytes(), &[start]])[..proto.nonce_len()].to_vec();
+            let req = build_request(proto, &nonce, 1024, &[VER_DRAFT13], if proto == Proto::Ietf && k % 4 == 1 { Some(&srv) } else { None });
+            match exchange(&sock, s.addr(), &req, Duration::from_secs(3)) {
+                Some(reply) => match verify_strict(proto, &req, &reply, &pk) {
+                    Ok(info) => {
+                        super::identity::check_cert(ctx, proto, &info.cert, &pk, Some(info.midp))?;
+                        keys.insert((proto, info.pubk));
+                    }
+                    Err(e) => return ctx.fail(format!("reply-does-not-verify-under-seed-key|{}", e), format!("seed {:?}: {} reply fails under the seed's RFC 8032 key: {}", r.seed_text, proto.name(), e)),
+                },
+                None => return ctx.fail("request-unanswered", format!("seed {:?}: {} request (SRV {}) unanswered", r.seed_text, proto.name(), k % 4 == 1)),
+            }
+        }
+        ctx.class(&format!("c10:real-binary:{}:workers={}:certs={}", if r.via_env { "env" } else { "file" }, n, keys.len()));
+        s.signal(libc::SIGTERM);
+        s.wait_exit(Duration::from_secs(5));
+    }
+    ctx.nontrivial(&(&r.seed_text, r.via_env, r.workers, r.restarts));
+    Ok(())
+}
+
+pub fn c10_process_part(ctx: &mut Ctx) -> Vec<Violation> {
+    let t = ctx.tier;
+    let seed_text = prop_oneof![
+        3 => bytes_exact(32).prop_map(|h| hex(&h.0)),
+        1 => bytes_exact(32).prop_map(|h| hex(&h.0).to_uppercase()),
+        // only decimal digits: YAML types it as a number
+        2 => "[0-9]{64}",
+        // digits with one 'e': YAML types it as a float in exponent notation
+        1 => ("[1-9][0-9]{20}", "[0-9]{42}").prop_map(|(a, b)| format!("{}e{}", a, b)),
+    ];
+    let strat = (seed_text, any::<bool>(), 1u8..=4, 1u8..=2).prop_map(|(seed_text, via_env, workers, restarts)| IdentityRun { seed_text, via_env, workers, restarts });
+    run_prop(ctx, "real-binary", t.pick(32, 480), 4, strat, |ctx, r| {
+        ctx.sample("real-binary", 2, r);
+        check_identity_run(ctx, r)
+    })
+}
+
+pub fn c10_replay(ctx: &mut Ctx, case: &Value) -> Res {
+    replay_case::<IdentityRun, _>(ctx, case, |ctx, r| check_identity_run(ctx, r))
 }
 
 // =========================================================================================== C20 (real binary)
